@@ -16,6 +16,9 @@ UNIT_MAP = {
     'cao_lang_table': ['cao_lang_table'],
     'object_laws': ['object_laws'],
     'names': ['name_resolution'],
+    'error_trace': ['error_trace'],
+    'scan:error_site_address': ['error_trace'],
+    'card_index': ['error_trace'],
     'imports': ['name_resolution'],
     'modules': ['name_resolution'],
     'resolve': ['name_resolution'],
